@@ -8,7 +8,7 @@ from .core import Script
 class LineStage:
     """scripts -> (implementation driver, Lean driver) -> three-way diff"""
 
-    def __init__(self, name, scripts, impl="rs", features=(), normalize=None, max_minimise=3, impl_exe=None):
+    def __init__(self, name, scripts, impl="rs", features=(), normalize=None, max_minimise=3, impl_exe=None, oracle=None):
         self.name = name
         self.scripts = scripts
         self.impl = impl
@@ -16,6 +16,7 @@ class LineStage:
         self.normalize = normalize
         self.max_minimise = max_minimise
         self.impl_exe = impl_exe
+        self.oracle = oracle
 
     def build_impl(self):
         if self.impl_exe:
@@ -23,8 +24,9 @@ class LineStage:
         if self.impl == "rs":
             return core.build_rs(self.features)
         if self.impl == "c":
-            from . import cbuild
-            return cbuild.build_c(self.features)
+            return core.build_c()
+        if self.impl == "b3sum":
+            return core.build_b3sum()
         raise core.InternalError(f"unknown impl {self.impl}")
 
     def run(self, lean_exe):
@@ -36,21 +38,23 @@ class LineStage:
                                  log_tail=log[-3000:]))
             return dict(evaluations=0, distinct=set(), mismatches=mism_out, samples=[], hist={})
         mism = core.run_pair(self.scripts, exe, lean_exe, self.impl + ("+" + ",".join(self.features) if self.features else ""),
-                             self.normalize)
+                             self.normalize, oracle=self.oracle)
         seen_kinds = {}
         for m in mism:
             seen_kinds[m.kind] = seen_kinds.get(m.kind, 0) + 1
-        done = 0
+        done = {}
         reported = set()
         for m in mism:
-            if done >= self.max_minimise:
-                break
-            mm = core.minimise(m, exe, lean_exe, self.normalize)
+            # at most max_minimise reports per class of failing op (kind, first two tokens of the op)
+            cls = (m.kind, " ".join(m.script.ops[m.index].split(" ")[:2]) if m.index < len(m.script.ops) else "")
+            if done.get(cls, 0) >= self.max_minimise or len(reported) >= 12:
+                continue
+            done[cls] = done.get(cls, 0) + 1
+            mm = core.minimise(m, exe, lean_exe, self.normalize, oracle=self.oracle)
             key = (mm.kind, tuple(mm.script.ops))
             if key in reported:
                 continue
             reported.add(key)
-            done += 1
             mism_out.append(dict(kind=mm.kind, impl_name=mm.impl_name, ops=mm.script.ops, failing_op_index=mm.index,
                                  impl_output=mm.impl[:2000], model_output=mm.model[:2000], spec_output=mm.spec[:2000],
                                  impl_differs=(mm.impl != mm.model),
@@ -65,10 +69,10 @@ class LineStage:
                     samples=[sc.ops[:12] for sc in self.scripts[:2]] + [sc.ops[:12] for sc in self.scripts[-1:]], hist=hist)
 
 
-def replay_line(d, lean_exe, impl="rs", features=(), normalize=None):
-    st = LineStage("replay", [Script(d.get("ops", []))], impl=impl, features=features, normalize=normalize, max_minimise=0)
+def replay_line(d, lean_exe, impl="rs", features=(), normalize=None, oracle=None):
+    st = LineStage("replay", [Script(d.get("ops", []))], impl=impl, features=features, normalize=normalize, max_minimise=0, oracle=oracle)
     ok, exe, log = st.build_impl()
     if not ok:
         return dict(still_fails=True, note="implementation harness does not build", log=log[-2000:])
-    mism = core.run_pair(st.scripts, exe, lean_exe, impl, normalize)
+    mism = core.run_pair(st.scripts, exe, lean_exe, impl, normalize, oracle=oracle)
     return dict(still_fails=bool(mism), mismatches=[dict(kind=m.kind, index=m.index, impl=m.impl[:500], model=m.model[:500], spec=m.spec[:500]) for m in mism])
